@@ -234,7 +234,7 @@ def route_of(src, dst):
     return path
 
 
-def o3_cosim_failing_hop(ctx, src, dst):
+def o3_cosim_failing_hop(ctx, src, dst, late=0):
     """whole-system run on a fixed tree of real nodes: ONE symbolic failure - a forward hop whose transmissions are all
     lost, or a node whose NETWORK_ACK relay is lost, or none - for an ack-type message (symbolic type 65..127)"""
     from circuitpython_nrf24l01.rf24_network import RF24Network
@@ -262,9 +262,12 @@ def o3_cosim_failing_hop(ctx, src, dst):
     mtype = ctx.int("type", 65, 127)
     body = ctx.bytes("body", 3)
     rs, ns = nodes[src]
+    if late:  # timing jitter: every node may be a few SPI transactions late (far less than route_timeout), symbolically
+        symbolic_schedule(ctx, med, late)
     med.running(rs, True)
     ok = ns.send(RF24NetworkHeader(dst, mtype), body)
     med.running(rs, False)
+    med.defer = None
     for _ in range(40):
         if not any(st[2] for st in med.nodes.values()):
             break
@@ -317,6 +320,9 @@ def jobs(tier):
             out.append(Job("O1-origin-mesh-node", o1_origin, dict(lx=lx, ld=ld, ack_to="self", tick_ms=3, role="mesh"), cost=50, shards=4))
     for src, dst in ROUTES:
         out.append(Job("O3-co-simulation-one-failing-hop", o3_cosim_failing_hop, dict(src=src, dst=dst), cost=60))
+    for src, dst in (ROUTES[:3] if tier == "quick" else ROUTES):
+        out.append(Job("O3-co-simulation-one-failing-hop-symbolic-schedule", o3_cosim_failing_hop,
+                       dict(src=src, dst=dst, late=4 if tier == "quick" else 6), cost=120, shards=4))
     roles = ("routing", "net", "mesh")
     if tier == "quick":
         rc = [(r, l, lf, ld) for r in roles for l in range(5) for lf in range(5) for ld in range(5)
